@@ -20,7 +20,7 @@ def ntname(x):
     return f"N{x}"
 
 
-class Timeout(Exception):
+class Timeout(BaseException):
     pass
 
 
